@@ -252,6 +252,10 @@ type Shared struct {
 	// text in the key domains; per translated language: default text -> translated text)
 	UsePo bool
 	PoDir string
+	// (one PoResource for all sessions of the Shared: templates and labels are immutable
+	// application data, the object that serves them is shared like the bytecode)
+	poOnce sync.Once
+	po     *resource.PoResource
 }
 
 func NewShared(a *App) *Shared {
@@ -544,36 +548,39 @@ func (s *Shared) WritePo(dir string) error {
 }
 
 func (s *Shared) poResource(rec *Recorder) resource.Resource {
-	a := s.App
-	def, err := lang.LanguageFromCode("eng")
-	if err != nil {
-		panic(err)
-	}
-	rs := resource.NewPoResource(def, s.PoDir)
-	for _, tr := range a.Trans {
-		ln, err := lang.LanguageFromCode(tr.Lang)
+	s.poOnce.Do(func() {
+		a := s.App
+		def, err := lang.LanguageFromCode("eng")
 		if err != nil {
 			panic(err)
 		}
-		rs = rs.WithLanguage(ln)
-	}
-	rs.WithCodeGetter(func(ctx context.Context, sym string) ([]byte, error) {
-		b, ok := s.Code[sym]
-		if !ok {
-			return nil, fmt.Errorf("no such node: %s", sym)
+		rs := resource.NewPoResource(def, s.PoDir)
+		for _, tr := range a.Trans {
+			ln, err := lang.LanguageFromCode(tr.Lang)
+			if err != nil {
+				panic(err)
+			}
+			rs = rs.WithLanguage(ln)
 		}
-		return b, nil
+		rs.WithCodeGetter(func(ctx context.Context, sym string) ([]byte, error) {
+			b, ok := s.Code[sym]
+			if !ok {
+				return nil, fmt.Errorf("no such node: %s", sym)
+			}
+			return b, nil
+		})
+		rs.WithEntryFuncGetter(func(ctx context.Context, sym string) (resource.EntryFunc, error) {
+			if a.Sym(sym) == nil {
+				return nil, fmt.Errorf("unknown function: %s", sym)
+			}
+			return func(ctx context.Context, nodeSym string, input []byte) (resource.Result, error) {
+				n, _ := ctx.Value(callOrdinalKey{}).(int)
+				return a.scripted(sym, n, ctxLang(ctx), input)
+			}, nil
+		})
+		s.po = rs
 	})
-	rs.WithEntryFuncGetter(func(ctx context.Context, sym string) (resource.EntryFunc, error) {
-		if a.Sym(sym) == nil {
-			return nil, fmt.Errorf("unknown function: %s", sym)
-		}
-		return func(ctx context.Context, nodeSym string, input []byte) (resource.Result, error) {
-			n, _ := ctx.Value(callOrdinalKey{}).(int)
-			return a.scripted(sym, n, ctxLang(ctx), input)
-		}, nil
-	})
-	return &recResource{inner: rs, rec: rec}
+	return &recResource{inner: s.po, rec: rec}
 }
 
 func (s *Shared) Resource(rec *Recorder) resource.Resource {
